@@ -11,6 +11,20 @@ import vxlib
 
 # (unit, file, regex, replacement, what it breaks)
 MUTATIONS = {
+    'C20': [
+        ('richerror', 'tonic-types/src/richer_error/mod.rs', r'code: code as i32,', 'code: 2,', 'embedded google.rpc.Status does not carry the outer code'),
+        ('richerror', 'tonic-types/src/richer_error/mod.rs', r'message: message\.to_owned\(\),', 'message: String::new(),', 'embedded google.rpc.Status loses the message'),
+        ('richerror', 'tonic-types/src/richer_error/mod.rs', r'conv_details\.push\(debug_info\.into_any\(\)\);', 'let _ = debug_info;', 'a set loses its debug info on the way out'),
+        ('richerror', 'tonic-types/src/richer_error/mod.rs', r'Help::TYPE_URL => \{\s*details\.push\(Help::from_any_ref\(any\)\?\.into\(\)\);', 'Help::TYPE_URL => {\n                    let _ = Help::from_any_ref(any)?;', 'help details dropped from the decoded list'),
+        ('richerror', 'tonic-types/src/richer_error/std_messages/bad_request.rs', r'field: value\.field,\s*description: value\.description,', 'field: value.description,\n            description: value.field,', 'field and description of a violation swapped when decoding'),
+        ('richerror', 'tonic-types/src/richer_error/std_messages/retry_info.rs', r'Ok\(duration\) => duration,', 'Ok(duration) => prost_types::Duration { seconds: duration.seconds, nanos: 0 },', 'sub-second part of the retry delay dropped'),
+        ('richerror', 'tonic-types/src/richer_error/std_messages/help.rs', r'type_url: Help::TYPE_URL\.to_string\(\),', 'type_url: "type.googleapis.com/google.rpc.BadRequest".to_string(),', 'help packed under the type URL of another kind'),
+        ('richerror', 'tonic-types/src/richer_error/mod.rs', r'details\.quota_failure = Some\(QuotaFailure::from_any_ref\(any\)\?\);', 'details.quota_failure = QuotaFailure::from_any_ref(any).ok();', 'an undecodable quota failure is swallowed instead of reported'),
+        ('richerror', 'tonic-types/src/richer_error/std_messages/quota_failure.rs', r'"type\.googleapis\.com/google\.rpc\.QuotaFailure"', '"type.googleapis.com/google.rpc.ErrorInfo"', 'two kinds share a type URL'),
+        ('richerror', 'tonic-types/src/richer_error/mod.rs', r'if any\.type_url\.as_str\(\) == DebugInfo::TYPE_URL \{', 'if any.type_url.as_str() != DebugInfo::TYPE_URL {', 'getter looks at the wrong details'),
+        ('richerror', 'tonic-types/src/richer_error/mod.rs', r'ErrorDetail::ResourceInfo\(res_info\) => \{\s*conv_details\.push\(res_info\.into_any\(\)\);', 'ErrorDetail::ResourceInfo(res_info) => {\n                    let _ = res_info;', 'a list element is not written'),
+        ('richerror', 'tonic-types/src/richer_error/std_messages/debug_info.rs', r'stack_entries: debug_info\.stack_entries,', 'stack_entries: Vec::new(),', 'stack entries lost'),
+    ],
     'C14': [
         ('reconnect', 'tonic/src/transport/channel/service/reconnect.rs', r'if !\(self\.has_been_connected \|\| self\.is_lazy\) \{', 'if !(self.has_been_connected && self.is_lazy) {', 'lazy channel reports its first failure instead of parking it'),
         ('reconnect', 'tonic/src/transport/channel/service/reconnect.rs', r'(Poll::Ready\(Err\(_\)\) => \{\s*trace!\("poll_ready; error"\);\s*)state = State::Idle;', r'\1return Poll::Ready(Ok(()));', 'dead connection reported as ready'),
